@@ -87,142 +87,66 @@ theorem mem_properPrefixes (x p : Addr) : x ∈ properPrefixes p ↔ x <+: p ∧
       have : x.length = p.length := by omega
       rw [List.prefix_iff_eq_take.mp hx, this, List.take_length]
 
-/-- `ancestors_to_prune` as computed by `prunePaths` (after repair D11: without `exact`, the ancestors that are
-    themselves a target or lie below a target are taken out) -/
+/-- `ancestors_to_prune` as computed by `prunePaths` -/
 def ancSet (ps : List Addr) (exact : Bool) : List Addr :=
-  if exact then ps.flatMap properPrefixes ++ ps
-  else (ps.flatMap properPrefixes).filter fun a => !(ps.contains a) && !((properPrefixes a).any ps.contains)
+  if exact then ps.flatMap properPrefixes ++ ps else ps.flatMap properPrefixes
 
 theorem mem_ancSet (ps : List Addr) (exact : Bool) (x : Addr) :
-    x ∈ ancSet ps exact ↔
-      (exact = true ∧ ((∃ p ∈ ps, x <+: p ∧ x ≠ p) ∨ x ∈ ps)) ∨
-      (exact = false ∧ (∃ p ∈ ps, x <+: p ∧ x ≠ p) ∧ x ∉ ps ∧ ¬ ∃ q ∈ ps, q <+: x ∧ q ≠ x) := by
+    x ∈ ancSet ps exact ↔ (∃ p ∈ ps, x <+: p ∧ x ≠ p) ∨ (exact = true ∧ x ∈ ps) := by
   unfold ancSet
-  cases exact
-  · simp only [Bool.false_eq_true, false_and, false_or, true_and, if_false, List.mem_filter, List.mem_flatMap,
-      mem_properPrefixes, Bool.and_eq_true, Bool.not_eq_true', List.contains_iff_mem]
-    constructor
-    · rintro ⟨h1, h2, h3⟩
-      refine ⟨h1, ?_, ?_⟩
-      · intro hx
-        have : ps.contains x = true := List.contains_iff_mem.mpr hx
-        rw [this] at h2
-        exact absurd h2 (by decide)
-      · rintro ⟨q, hq, hqx, hne⟩
-        have : (properPrefixes x).any ps.contains = true :=
-          List.any_eq_true.mpr ⟨q, (mem_properPrefixes q x).mpr ⟨hqx, hne⟩, List.contains_iff_mem.mpr hq⟩
-        rw [this] at h3
-        exact absurd h3 (by decide)
-    · rintro ⟨h1, h2, h3⟩
-      refine ⟨h1, ?_, ?_⟩
-      · cases hc : ps.contains x
-        · rfl
-        · exact absurd (List.contains_iff_mem.mp hc) h2
-      · cases hc : (properPrefixes x).any ps.contains
-        · rfl
-        · obtain ⟨q, hq, hqc⟩ := List.any_eq_true.mp hc
-          have := (mem_properPrefixes q x).mp hq
-          exact absurd ⟨q, List.contains_iff_mem.mp hqc, this.1, this.2⟩ h3
-  · simp [List.mem_flatMap, mem_properPrefixes]
+  cases exact <;> simp [List.mem_flatMap, mem_properPrefixes]
 
-theorem mem_ancSet_exact (ps : List Addr) (x : Addr) :
-    x ∈ ancSet ps true ↔ (∃ p ∈ ps, x <+: p ∧ x ≠ p) ∨ x ∈ ps := by
-  rw [mem_ancSet]; simp
-
-theorem mem_ancSet_keep (ps : List Addr) (x : Addr) :
-    x ∈ ancSet ps false ↔ (∃ p ∈ ps, x <+: p ∧ x ≠ p) ∧ x ∉ ps ∧ ¬ ∃ q ∈ ps, q <+: x ∧ q ≠ x := by
-  rw [mem_ancSet]; simp
-
-theorem keepD_eq_keepT_exact (ps : List Addr) (b : Addr) (j : Nat) (hb : keepT ps true b = true) :
-    keepD (ancSet ps true) ps (b ++ [j]) = keepT ps true (b ++ [j]) := by
+theorem keepD_eq_keepT (ps : List Addr) (exact : Bool) (hnn : NonNested ps)
+    (b : Addr) (j : Nat) (hb : keepT ps exact b = true) :
+    keepD (ancSet ps exact) ps (b ++ [j]) = keepT ps exact (b ++ [j]) := by
   rw [Bool.eq_iff_iff]
   simp only [keepD, Bool.or_eq_true, Bool.not_eq_true', List.dropLast_concat, keepT_iff]
   rw [← Bool.not_eq_true, List.contains_iff_mem, List.contains_iff_mem, List.contains_iff_mem,
-    mem_ancSet_exact, mem_ancSet_exact]
+    mem_ancSet, mem_ancSet]
   rw [keepT_iff] at hb
   constructor
   · rintro ((hnA | hA) | hN)
-    · obtain ⟨p, hp, h | ⟨he, _⟩⟩ := hb
+    · -- the parent is not in the ancestor set
+      obtain ⟨p, hp, h | ⟨he, h⟩⟩ := hb
       · by_cases hbp : b = p
-        · exact absurd (Or.inr (hbp ▸ hp)) hnA
+        · subst hbp
+          cases hex : exact
+          · exact ⟨b, hp, Or.inr ⟨rfl, List.prefix_append b [j]⟩⟩
+          · exact absurd (Or.inr ⟨hex, hp⟩) hnA
         · exact absurd (Or.inl ⟨p, hp, h, hbp⟩) hnA
-      · exact absurd he (by decide)
-    · rcases hA with ⟨p, hp, h, _⟩ | h
+      · exact ⟨p, hp, Or.inr ⟨he, h.trans (List.prefix_append b [j])⟩⟩
+    · rcases hA with ⟨p, hp, h, _⟩ | ⟨_, h⟩
       · exact ⟨p, hp, Or.inl h⟩
       · exact ⟨_, h, Or.inl (List.prefix_refl _)⟩
     · exact ⟨_, hN, Or.inl (List.prefix_refl _)⟩
-  · rintro ⟨p, hp, h | ⟨he, _⟩⟩
+  · rintro ⟨p, hp, h | ⟨he, h⟩⟩
     · by_cases hcp : b ++ [j] = p
       · exact Or.inr (hcp ▸ hp)
       · exact Or.inl (Or.inr (Or.inl ⟨p, hp, h, hcp⟩))
-    · exact absurd he (by decide)
-
-theorem keepD_eq_keepT_keep (ps : List Addr) (b : Addr) (j : Nat) (hb : keepT ps false b = true) :
-    keepD (ancSet ps false) ps (b ++ [j]) = keepT ps false (b ++ [j]) := by
-  rw [Bool.eq_iff_iff]
-  simp only [keepD, Bool.or_eq_true, Bool.not_eq_true', List.dropLast_concat, keepT_iff]
-  rw [← Bool.not_eq_true, List.contains_iff_mem, List.contains_iff_mem, List.contains_iff_mem,
-    mem_ancSet_keep, mem_ancSet_keep]
-  rw [keepT_iff] at hb
-  have hpc : b <+: b ++ [j] := List.prefix_append b [j]
-  constructor
-  · rintro ((hnA | hA) | hN)
-    · -- the parent is not in the (filtered) ancestor set
-      obtain ⟨p, hp, h | ⟨_, h⟩⟩ := hb
-      · by_cases hbp : b = p
-        · exact ⟨b, hbp ▸ hp, Or.inr ⟨trivial, hpc⟩⟩
-        · by_cases hbm : b ∈ ps
-          · exact ⟨b, hbm, Or.inr ⟨trivial, hpc⟩⟩
-          · by_cases hq : ∃ q ∈ ps, q <+: b ∧ q ≠ b
-            · obtain ⟨q, hq, hqb, _⟩ := hq
-              exact ⟨q, hq, Or.inr ⟨trivial, hqb.trans hpc⟩⟩
-            · exact absurd ⟨⟨p, hp, h, hbp⟩, hbm, hq⟩ hnA
-      · exact ⟨p, hp, Or.inr ⟨trivial, h.trans hpc⟩⟩
-    · obtain ⟨⟨p, hp, h, _⟩, _, _⟩ := hA
-      exact ⟨p, hp, Or.inl h⟩
-    · exact ⟨_, hN, Or.inl (List.prefix_refl _)⟩
-  · rintro ⟨p, hp, hcase⟩
-    by_cases hcm : b ++ [j] ∈ ps
-    · exact Or.inr hcm
-    · refine Or.inl ?_
-      by_cases hbA : (∃ p ∈ ps, b <+: p ∧ b ≠ p) ∧ b ∉ ps ∧ ¬ ∃ q ∈ ps, q <+: b ∧ q ≠ b
-      · refine Or.inr ?_
-        obtain ⟨_, hbm, hbq⟩ := hbA
-        -- a target that is a prefix of the child is the child itself, the parent, or above the parent
-        have hno : ∀ q ∈ ps, q <+: b ++ [j] → False := by
-          intro q hq hqc
-          rcases List.prefix_concat_iff.mp hqc with h | h
-          · exact hcm (h ▸ hq)
-          · by_cases hqb : q = b
-            · exact hbm (hqb ▸ hq)
-            · exact hbq ⟨q, hq, h, hqb⟩
-        rcases hcase with h | ⟨_, h⟩
-        · refine ⟨⟨p, hp, h, fun e => hcm (e ▸ hp)⟩, hcm, ?_⟩
-          rintro ⟨q, hq, hqc, _⟩
-          exact hno q hq hqc
-        · exact absurd h (fun h => hno p hp h)
-      · exact Or.inl hbA
-
-theorem keepD_eq_keepT (ps : List Addr) (exact : Bool)
-    (b : Addr) (j : Nat) (hb : keepT ps exact b = true) :
-    keepD (ancSet ps exact) ps (b ++ [j]) = keepT ps exact (b ++ [j]) := by
-  cases exact
-  · exact keepD_eq_keepT_keep ps b j hb
-  · exact keepD_eq_keepT_exact ps b j hb
+    · rcases List.prefix_concat_iff.mp h with h | h
+      · exact Or.inr (h ▸ hp)
+      · refine Or.inl (Or.inl ?_)
+        rintro (⟨p', hp', hpre, hne⟩ | ⟨hex, _⟩)
+        · have hpp' : p <+: p' := h.trans hpre
+          have := hnn p hp p' hp' hpp'
+          subst this
+          apply hne
+          exact List.IsPrefix.eq_of_length_le hpre (h.length_le)
+        · simp [he] at hex
 
 theorem keepT_root (ps : List Addr) (exact : Bool) (h : ps ≠ []) : keepT ps exact [] = true := by
   rw [keepT_iff]
   obtain ⟨p, hp⟩ := List.exists_mem_of_ne_nil ps h
   exact ⟨p, hp, Or.inl (List.nil_prefix)⟩
 
-/-- the path phase of `prune_tree` keeps exactly the routes to the targets and (unless exact) what lies below them -
-    for EVERY target list, nested or not (since repair D11) -/
-theorem detach_targets (ps : List Addr) (exact : Bool) (hne : ps ≠ []) (t : Tree) :
+/-- the path phase of `prune_tree`, for non-nested targets, keeps exactly the routes to the targets
+    and (unless exact) what lies below them -/
+theorem detach_targets (ps : List Addr) (exact : Bool) (hnn : NonNested ps) (hne : ps ≠ []) (t : Tree) :
     detach (ancSet ps exact) ps [] t = restrict (keepT ps exact) [] t := by
   rw [detach_eq_restrict]
   exact restrict_congr _ _ (fun b => keepT ps exact b = true)
-    (fun b j hb => keepD_eq_keepT ps exact b j hb)
-    (fun b j hb hk => by rw [← keepD_eq_keepT ps exact b j hb]; exact hk) t [] (keepT_root ps exact hne)
+    (fun b j hb => keepD_eq_keepT ps exact hnn b j hb)
+    (fun b j hb hk => by rw [← keepD_eq_keepT ps exact hnn b j hb]; exact hk) t [] (keepT_root ps exact hne)
 
 end Helper
 
